@@ -645,6 +645,12 @@ class SReal(SNum):
     def __ceil__(self):
         return -((-self).__floor__())
 
+    def __round__(self, n=None):
+        if self.c is not None:
+            return round(self.c) if n is None else SReal(None, Fr(round(self.c, n)))
+        # nearest integer (ties cannot be decided symbolically: floor(x + 1/2))
+        return (self + Fr(1, 2)).__floor__()
+
     def __float__(self):
         if self.c is not None:
             return float(self.c)
@@ -680,7 +686,23 @@ def uf(name, *args):
     if f is None:
         f = z3.Function(name, *([z3.RealSort()] * (len(args) + 1)))
         _UF[(name, len(args))] = f
-    return SReal(f(*[toreal(zt(a)) for a in args]))
+    targs = [toreal(zt(a)) for a in args]
+    t = f(*targs)
+    ctx = Ctx.cur
+    if ctx is not None:
+        key = (name, t.get_id())
+        if key not in ctx.uf:
+            ctx.uf[key] = True
+            # range facts of the real functions (part of the stub's contract)
+            if name == 'exp':
+                ctx.assume(t > 0)
+            elif name == 'sqrt':
+                ctx.assume(z3.And(t >= 0, z3.Implies(targs[0] > 0, t > 0)))
+            elif name == 'tanh':
+                ctx.assume(z3.And(t > -1, t < 1))
+            elif name in ('cos', 'sin'):
+                ctx.assume(z3.And(t >= -1, t <= 1))
+    return SReal(t)
 
 
 def K(v):
@@ -827,3 +849,27 @@ def coefficient_terms(t, cvars):
         sub = [(v, z3.RealVal(1 if j == i else 0)) for j, v in enumerate(cvars)]
         out[c.decl().name()] = z3.simplify(z3.substitute(t, *sub) - const)
     return out
+
+
+def abstract_nonlinear(t, cache):
+    """over-approximation for deciding identities between linear combinations of the same non-linear atoms:
+    every ITE node and every product of >= 2 non-numeral factors is replaced by a fresh real constant (one per
+    structurally distinct node).  `valid after abstraction` implies `valid`."""
+    key = t.get_id()
+    if key in cache:
+        return cache[key]
+    k = t.decl().kind()
+    if z3.is_const(t) or z3.is_rational_value(t) or z3.is_int_value(t):
+        r = t
+    elif k == z3.Z3_OP_ITE or (k == z3.Z3_OP_MUL and sum(0 if (z3.is_rational_value(c) or z3.is_int_value(c)) else 1 for c in t.children()) >= 2) \
+            or k == z3.Z3_OP_POWER:
+        s = z3.simplify(t)
+        sk = ('atom', s.get_id())
+        if sk not in cache:
+            cache[sk] = z3.Real('atom!%d' % len(cache))
+        r = cache[sk]
+    else:
+        ch = [abstract_nonlinear(c, cache) for c in t.children()]
+        r = t.decl()(*ch)
+    cache[key] = r
+    return r
